@@ -56,6 +56,21 @@ def execute(sc):
     T = rt.VLoop('T')
     keep.append(T)
     watch(T, 'T')
+
+    # ---- abstract-state projection (for conformance with CrossLoop.tla), read without running traced code
+    raw_log = ctl.log
+
+    def log_with_proj(e, **kw):
+        d = raw_log(e, **kw)
+        try:
+            lk = getattr(A, '_LOOP_LOCKS', {}).get(id(T))
+            cl = getattr(A, '_LOOP_LOCKS_CREATE_LOCK', None)
+            d['st'] = [bool(T.is_running()), lk is not None, bool(lk is not None and lk._owner is not None),
+                       bool(cl is not None and getattr(cl, '_owner', None) is not None)]
+        except Exception:
+            pass
+        return d
+    ctl.log = log_with_proj
     mode = sc['target']
     ctl.log('Config', target=mode, ncallers=len(sc['callers']))
     state = {'ready': mode in ('idle', 'idle_then_lit'), 'done': 0}
